@@ -187,12 +187,17 @@ func VH_C10_join_Q() {
 	}
 }
 
-// Append: plain concatenation, arguments unchanged.
+// Append: plain concatenation, arguments unchanged; a receiver that is empty or holds only a
+// MoveTo is replaced (no MoveTo directly after a MoveTo), and an empty accumulator can be reused:
+// an earlier result is not changed by a later Append on the same empty receiver.
 func VH_C10_append_Q() {
 	p := &Path{}
-	if vChoose(0, 1) == 1 {
+	switch vChoose(0, 2) {
+	case 1:
 		vhRawSubpath(p, vhReal, vhChooseKinds(vChoose(1, 2), []int{vhLine, vhArc}), vChoose(0, 1))
 		vAssume(vhWF(p))
+	case 2:
+		p.d = append(p.d, MoveToCmd, vhReal(), vhReal(), MoveToCmd) // a lone MoveTo
 	}
 	q := &Path{}
 	vhRawSubpath(q, vhReal, vhChooseKinds(vChoose(0, 2), []int{vhLine, vhCube}), 0)
@@ -202,11 +207,27 @@ func VH_C10_append_Q() {
 	r := p.Append(q)
 	vAssert("C10.append.arg_unchanged", vhSameData(q.d, qBefore))
 	vAssert("C10.append.struct_wf", vhStructWF(r))
+	// no MoveTo directly followed by a MoveTo
+	noDouble := true
+	offs := vhRecords(r.d)
+	for k := 0; k+1 < len(offs); k++ {
+		noDouble = noDouble && !(r.d[offs[k]] == MoveToCmd && r.d[offs[k+1]] == MoveToCmd)
+	}
+	vAssert("C10.append.no_double_moveto", noDouble)
 	if len(qBefore) > 4 {
 		want := append(vhCopyData(pre), qBefore...)
 		if len(pre) <= 4 {
 			want = qBefore // an empty/MoveTo-only receiver is replaced
 		}
 		vAssert("C10.append.concat", vhSameData(r.d, want))
+	}
+	// reuse of an empty accumulator
+	if len(pre) == 0 && len(qBefore) > 4 {
+		first := vhCopyData(r.d)
+		q2 := &Path{}
+		vhRawSubpath(q2, vhReal, []int{vhLine}, 0)
+		p.Append(q2)
+		vAssert("C10.append.earlier_result_unchanged", vhSameData(r.d, first))
+		vAssert("C10.append.empty_receiver_stays_empty", len(p.d) == 0)
 	}
 }
